@@ -66,6 +66,22 @@ LimitOKG(S, fs, R, deleg) ==
                    \A k \in mine : ~(Ev(y).ts > Ev(R[k]).ts)
 LimitOK(S, fs, R) == LimitOKG(S, fs, R, TRUE)
 
+\* The SQL backend's statement, as built by Subscription.build_query: ONE statement for the whole REQ -
+\*   SELECT ... WHERE (filter 1) OR (filter 2) ... ORDER BY created_at DESC LIMIT n
+\* with n the limit of the LAST filter (capped by max_limit).  Its meaning, as a relation: no event twice, only events of
+\* the union of the filters, the newest n of them.  This is the as-found behaviour behind the open finding
+\* sql-one-limit-for-all-filters (per-filter limits are not honoured in a multi-filter REQ); an answer that satisfies
+\* SqlModel and violates LimitOK / Complete is that finding and nothing else.
+\* (the statement compares `created_at >= since AND created_at < until`: `until` is exclusive there)
+SqlFilter(f) == IF Has(f.until) THEN [f EXCEPT !.until = <<Val(f.until) - 1>>] ELSE f
+SqlUnion(S, fs) == {i \in S : \E j \in Live(fs) : Matches(i, Ev(i), SqlFilter(fs[j]), FALSE)}
+SqlN(fs) == IF fs = <<>> THEN MaxLimit ELSE Eff(fs[Len(fs)])
+SqlModel(S, fs, R) ==
+    /\ \A k, m \in DOMAIN R : k # m => R[k] # R[m]
+    /\ Range(R) \subseteq SqlUnion(S, fs)
+    /\ Len(R) = Min(SqlN(fs), Cardinality(SqlUnion(S, fs)))
+    /\ \A y \in SqlUnion(S, fs) \ Range(R) : \A k \in DOMAIN R : ~(Ev(y).ts > Ev(R[k]).ts)
+
 QueryOK(S, fs, R) == Sound(S, fs, R) /\ Complete(S, fs, R) /\ Multiplicity(S, fs, R) /\ LimitOK(S, fs, R)
 
 \* which clauses fail (for verdicts)
